@@ -213,37 +213,75 @@ def check_rt(case, ctx):
     return out
 
 
+def public_snapshot(lib, mask_text):
+    """What a user can see of a library through the public API.  With mask_text the places the property allows to
+    change (str field values, strings inside NameParts, @string values) are reduced to their TYPE."""
+    from bibtexparser.middlewares import NameParts
+
+    def val(v):
+        if isinstance(v, str):
+            return ("str",) if mask_text else ("str", v)
+        if isinstance(v, NameParts):
+            parts = [v.first, v.von, v.last, v.jr]
+            return ("NameParts",) + tuple(tuple(("str",) if (mask_text and isinstance(x, str)) else (type(x).__name__, x) for x in p) for p in parts)
+        return ("other", fp(v))
+
+    out = []
+    for b in lib.blocks:
+        k = sp.block_kind(b)
+        common = (type(b).__name__, b.start_line, b.raw, fp({kk: vv for kk, vv in b.parser_metadata.items()}))
+        if k == "entry":
+            out.append(common + (b.entry_type, b.key, tuple((f.key, f.start_line, val(f.value)) for f in b.fields)))
+        elif k == "string":
+            out.append(common + (b.key, val(b.value)))
+        elif k == "preamble":
+            out.append(common + (b.value,))
+        elif k in ("ecomment", "icomment"):
+            out.append(common + (b.comment,))
+        else:
+            out.append(common + (fp(b.error), fp(b.ignore_error_block)))
+    return out, sorted(lib.entries_dict), sorted(lib.strings_dict)
+
+
 def check_scope(case, ctx):
     texts = case["texts"]
     lib = mk_library(texts)
     which = case["which"]
     optlist = SCOPE_ENC_OPTS if which == "enc" else SCOPE_DEC_OPTS
     opts = optlist[case["opts"] % len(optlist)]
-    before = paths(lib)
+    before = public_snapshot(lib, True)
     mw = make(which, opts, case["inplace"])
     st, res = sp.escape(lambda: mw.transform(lib))
     ctx.ran()
     if st == "raise":
         return [Violation("raised", f"C18:{which}-raised:{res.split(':')[0]}", dict(texts=texts, error=res, opts=opts))]
-    kinds_in = [sp.block_kind(b) for b in lib.blocks] if not case["inplace"] else None
     kinds = [sp.block_kind(b) for b in res.blocks]
     if "mwerror" in kinds:
         ctx.note("scope_skipped_conversion_error")
         return []
     ctx.mon("scope")
-    after = paths(res)
-    out = []
-    for p in sorted(set(before) | set(after)):
-        a, b = before.get(p), after.get(p)
-        if a == b:
-            continue
-        if a is not None and b is not None and ALLOWED.match(p) and a[0] == "str" and b[0] == "str":
-            continue
-        what = "type-changed" if (a and b and ALLOWED.match(p)) else "outside-allowed-paths"
-        place = re.sub(r"\[\d+\]|\{[^}]*\}", "[]", p)
-        out.append(Violation("scope", f"C18:scope:{which}:{what}:{place[-40:]}", dict(path=p, before=srepr(a), after=srepr(b), opts=opts, texts=texts)))
-        break
-    return out
+    after = public_snapshot(res, True)
+    if after == before:
+        return []
+    # localise the first difference
+    what, place = "outside-allowed-places", "library"
+    if len(after[0]) != len(before[0]) or after[1:] != before[1:]:
+        place = "blocks-or-key-index"
+    else:
+        for i, (a, b) in enumerate(zip(before[0], after[0])):
+            if a != b:
+                place = f"{a[0]}"
+                if len(a) == len(b):
+                    for j, (x, y) in enumerate(zip(a, b)):
+                        if x != y:
+                            names = ["class", "start_line", "raw", "metadata", "type-or-key-or-content", "key-or-value", "fields"]
+                            place += ":" + (names[j] if j < len(names) else str(j))
+                            if isinstance(x, tuple) and isinstance(y, tuple) and x and y and x[0] in ("str", "NameParts") and y[0] != x[0]:
+                                what = "type-changed"
+                            break
+                break
+    return [Violation("scope", f"C18:scope:{which}:{what}:{place}", dict(place=place, opts=opts, texts=texts,
+                                                                          before=srepr(before, 600), after=srepr(after, 600)))]
 
 
 def check_failpoint(case, ctx):
